@@ -255,6 +255,9 @@ def type_matches(T, v):
         return isinstance(v, Arr) and getattr(v, 'lead', None) is None
     if tag == 'frame':
         return isinstance(v, Frame) and all(c in v.cols for c in T[1])
+    if tag == 'dictp':
+        return isinstance(v, SDict) and set(k for k, (p_, _) in v.items.items() if p_ is True) == set(T[1]) and \
+            all(p_ is True or p_ is False for p_, _ in v.items.values())
     if tag == 'dict':
         return isinstance(v, SDict) or (isinstance(v, Opaque) and getattr(v, 'cell', None) is not None)
     if tag == 'tuple':
@@ -1570,6 +1573,13 @@ def str_replace(E, s, args, node):
     raise Unsupported('symbolic replace')
 
 
+@method('str.capitalize', 'str.lower', 'str.upper', 'str.title', 'str.strip')
+def str_simple(E, s, args, node):
+    if isinstance(s, str):
+        return getattr(s, node.func.attr)(*[a for a in args.pos if isinstance(a, str)])
+    raise Unsupported('string method on a symbolic string')
+
+
 def try_definitional(E, e, env):
     """A callee postcondition of the shape  forall(i, 0 <= i < len(R), same(R..[i], EXPR(i)))  over a fresh result
     array R defines R pointwise; instead of assuming the quantified formula the engine makes R's contents the
@@ -2007,3 +2017,48 @@ def ax_axvspan(E, ax, args, node):
     """matplotlib Axes.axvspan on an opaque drawing surface: external, nothing assumed; logged as ghost state"""
     E.st.calls.append(('matplotlib.axes.Axes.axvspan', {'xmin': args.get(0, 'xmin'), 'xmax': args.get(1, 'xmax')}, None))
     return None
+
+
+@libfn('scipy.stats.zscore')
+def sp_zscore(E, args, node):
+    """external: an unconstrained real array of the input's length"""
+    a = args.pos[0]
+    if not isinstance(a, Arr) or a.ndim != 1:
+        raise Unsupported('zscore of %r' % (a,))
+    return E.new_arr(a.n, REAL, base='zscore')
+
+
+AXES_AT = z3.Function('axes_at', ValSort, z3.IntSort(), ValSort)
+
+
+@libfn('matplotlib.pyplot.subplots')
+def plt_subplots(E, args, node):
+    """external: (figure, axes) - one opaque drawing surface when nrows is 1 (or absent), otherwise an array of nrows of them"""
+    nrows = args.kw.get('nrows', 1)
+    fig = Opaque(z3.Const(fresh_name('figure'), ValSort), 'figure')
+    if isinstance(nrows, int) and nrows == 1:
+        return (fig, Opaque(z3.Const(fresh_name('axes'), ValSort), 'axes'))
+    base = z3.Const(fresh_name('axes_array'), ValSort)
+    n = term_int(nrows)
+    from . import grid
+    g = grid.grid(E, (z3.simplify(n),), 1, (lambda i, base=base: Opaque(AXES_AT(base, i), 'axes')), 'ndarray')
+    return (fig, g)
+
+
+@libfn('neurodsp.plts.plot_bursts', 'neurodsp.plts.time_series.plot_bursts')
+def nd_plot_bursts(E, args, node):
+    """external drawing routine (trace with the bursting samples highlighted): nothing assumed, the call is logged"""
+    bound = {'times': args.get(0, 'times'), 'sig': args.get(1, 'sig'), 'bursting': args.get(2, 'bursting')}
+    for k, v in args.kw.items():
+        bound[k] = v
+    E.st.calls.append(('neurodsp.plts.plot_bursts', bound, None))
+    return None
+
+
+@libfn('itertools.cycle')
+def it_cycle(E, args, node):
+    v = args.pos[0]
+    items = list(v.items) if isinstance(v, PyList) else (list(v) if isinstance(v, (tuple, list)) else None)
+    if not items:
+        raise Unsupported('cycle(%r)' % (v,))
+    return {'__cycle__': items, 'pos': 0}
